@@ -155,7 +155,9 @@ func mkBLS[
 		where := fmt.Sprintf("%s %s ids=%s(%s) keygen=%s", fk, s.e.Name, a.Name, idsString(a.IDs), kg)
 		km, err := getKeys(s, a, kg)
 		if err != nil {
-			x.Failf("boldyreva/keygen/"+kg.String(), "%s: key generation failed: %v", where, err)
+			if !outside(x0, err, where) {
+				x.Failf("boldyreva/keygen/"+kg.String(), "%s: key generation failed: %s", where, errStr(err))
+			}
 			return
 		}
 		for _, id := range a.IDs {
